@@ -165,6 +165,18 @@ CHECKS = {
         "Time quantities of the exact facet are bare numbers in the script's unit system (identity "
         "conversion); in the unit-variation facet requested times sit >= 1/32 step from step times. Time step "
         "chosen from the reference law so that Euler / tau-leap stay finite."),
+    "C14": (
+        "Hypothesis generation of real-valued states x modes x engines x seeds, executed in a sandboxed "
+        "child process with a hang bound; validity predicate on the first sample; Poisson z-tests over seeds",
+        "Exploration. For generated states (sub-molecule totals, fractional and integer values, entries above "
+        "the Poisson/normal switch, empty cells, 1-4 species, 1-30 cells, grid and graph) the first sample "
+        "after set-up is checked: non-negative integers, per-species total = floor of the real total, nothing "
+        "in empty cells, pass-through bit for bit in 'none' mode (and 'auto' for Euler), identical result for "
+        "the same seed, and return within a hang bound (child process, re-run alone before a time-out "
+        "counts). Poisson mode is decided statistically over 200 (thorough: 2000) generated seeds per case: "
+        "per-entry mean, pooled dispersion, pooled correlation, zero stays zero.",
+        "Hang bound 30 s then 90 s alone (set-ups take milliseconds). |z| < 7 thresholds; runs are pure "
+        "functions of generated seeds."),
 }
 
 NOT_BUILT = "check not built yet in this working session (planned; DESIGN.md section 4)"
